@@ -100,12 +100,15 @@ class Justifications:
         return False
 
     def _port_loop_over_expected(self, fn: FuncInfo, call: ast.AST) -> bool:
-        loop = self.ctx.flow.enclosing(call, (ast.For,))
-        if loop is None or not isinstance(call, ast.Call) or not call.args:
+        if not isinstance(call, ast.Call) or not call.args or not isinstance(call.args[0], ast.Name):
             return False
-        return isinstance(loop.target, ast.Name) and isinstance(call.args[0], ast.Name) and \
-            call.args[0].id == loop.target.id and isinstance(loop.iter, ast.Name) and \
-            loop.iter.id in [a.arg for a in fn.params()]
+        # the enclosing loop (any nesting level) that binds the argument
+        loop = self.ctx.flow.enclosing(call, (ast.For,))
+        while loop is not None and not (isinstance(loop.target, ast.Name) and loop.target.id == call.args[0].id):
+            loop = self.ctx.flow.enclosing(loop, (ast.For,))
+        if loop is None:
+            return False
+        return isinstance(loop.iter, ast.Name) and loop.iter.id in [a.arg for a in fn.params()]
 
     def _findresult_types(self) -> Optional[str]:
         try:
@@ -136,10 +139,22 @@ class Justifications:
         if len(pd.enum_members) != 2:
             return None
         seen = {'provides_ports': 0, 'requires_ports': 0}
+        # which local list becomes which field of the returned DznElements (the local names do not matter)
+        de = prog.cls('adv_shell.common', 'DznElements')
+        role_of: Dict[str, str] = {}
+        for n in iter_own_nodes(cde.node):
+            if isinstance(n, ast.Call) and prog.resolve_expr_symbol(cde.module, n.func) is de:
+                flds = list(prog.class_fields(de))
+                for i, a in enumerate(n.args):
+                    if isinstance(a, ast.Name) and i < len(flds):
+                        role_of[a.id] = flds[i]
+                for k in n.keywords:
+                    if k.arg and isinstance(k.value, ast.Name):
+                        role_of[k.value.id] = k.arg
         for n in iter_own_nodes(cde.node):
             if isinstance(n, ast.Call) and isinstance(n.func, ast.Attribute) and n.func.attr in ('append', 'extend', 'insert') \
-                    and isinstance(n.func.value, ast.Name) and n.func.value.id in seen:
-                which = n.func.value.id
+                    and isinstance(n.func.value, ast.Name) and role_of.get(n.func.value.id) in seen:
+                which = role_of[n.func.value.id]
                 pol = None
                 for cond, p in self.abs.facts_at(n):
                     if isinstance(cond, ast.Compare) and len(cond.ops) == 1 and isinstance(cond.ops[0], ast.Eq) \
